@@ -13,7 +13,8 @@ from vp.core import Acc, Failure, Outcome
 ID = "C12"
 LEVEL = "exploration"
 RULE = (
-    "Programs from the shared generator (see C01). Run A requests EVERY array node with optimize_graph=False, run B only the "
+    "Programs from the shared generator (see C01; dag shards, operation-family focus shards, and sweep shards that visit every op-table "
+    "entry in every run). Run A requests EVERY array node with optimize_graph=False, run B only the "
     "outputs with optimization on; both on the schedule-owning executor whose write proxies compare, for every task of every "
     "operation (intermediate, fused, every output of multi-output ops, structured intermediates), the shape of the value being "
     "written with the shape of the selection it is written into (nothing may be broadcast or truncated by Zarr). For every node "
@@ -137,8 +138,9 @@ def shards(tier):
     fams = list(c01.FOCUS)
     if tier == "quick":
         return [{"kind": "program", "name": f"dag{i}", "n": 90, "rotate": 3 + i * 29, "store_mid": 10 if i % 2 else 4} for i in range(5)] + [
-            {"kind": "program", "name": f"focus-{f}", "n": 90, "rotate": 5 + j * 13, "focus": f, "max_ops": 2, "min_ops": 1} for j, f in enumerate(fams)]
-    return [{"kind": "program", "name": f"dag{i}", "n": 1500, "rotate": 3 + i * 29, "store_mid": 10 if i % 2 else 4} for i in range(12)] + [
+            {"kind": "program", "name": f"focus-{f}", "n": 90, "rotate": 5 + j * 13, "focus": f, "max_ops": 2, "min_ops": 1} for j, f in enumerate(fams)] + [
+            {"kind": "sweep", "name": f"sweep{i}", "part": i, "of": 4, "per": 6} for i in range(4)]
+    return [{"kind": "sweep", "name": f"sweep{i}", "part": i, "of": 8, "per": 100} for i in range(8)] + [{"kind": "program", "name": f"dag{i}", "n": 1500, "rotate": 3 + i * 29, "store_mid": 10 if i % 2 else 4} for i in range(12)] + [
         {"kind": "program", "name": f"focus-{f}", "n": 1800, "rotate": 5 + j * 13, "focus": f, "max_ops": 2, "min_ops": 1} for j, f in enumerate(fams)]
 
 
@@ -152,6 +154,15 @@ def run_shard(spec, seed, tier) -> Acc:
         opts["store_mid"] = spec["store_mid"]
     if spec.get("focus"):
         opts["only_ops"] = c01.focus_ops(spec["focus"])
+    if spec["kind"] == "sweep":
+        # every operation of the op table is visited in every run (one- and two-operation programs around that operation)
+        names = sorted(set(P.weighted_names("dag")))[spec["part"]::spec["of"]]
+        for j, nm in enumerate(names):
+            o = dict(opts, only_ops=[nm, "pick"], rotate=0)
+            core.hyp_run(case_strategy(o, max_ops=2, min_ops=1), check_case, seed=seed + j, max_examples=spec["per"], acc=acc,
+                         budget_s=60 if tier == "quick" else 900, shrink=False, is_known=is_known)
+        acc.extra["generation"] = dict(P.GEN_STATS)
+        return acc
     core.hyp_run(case_strategy(opts, max_ops=spec.get("max_ops", 5), min_ops=spec.get("min_ops", 0)), check_case, seed=seed, max_examples=spec["n"], acc=acc,
                  budget_s=420 if tier == "quick" else 3000, shrink=(tier == "thorough"), is_known=is_known)
     acc.extra["generation"] = dict(P.GEN_STATS)
